@@ -711,7 +711,8 @@ theorem denseFold_stage_none {W} (f : V → W → V) (w : W) (l : List Nat) (p :
   have e : stageList false (l.map fun q => (q, w)) = l.map fun q => (q, some w) := by
     simp [stageList]
   rw [e]
-  exact denseFold_map_congr _ _ l _ _ (fun _ _ => rfl) (fun _ _ _ => rfl) p x
+  exact denseFold_map_congr (stageOp id f) (fun x (_ : Unit) => cellEffect none f w x) l
+    (fun q => (q, some w)) (fun q => (q, ())) (fun _ _ => rfl) (fun _ _ _ => rfl) p x
 
 theorem denseFold_stage_some {W} (pre : V → V) (f : V → W → V) (w : W) (l : List Nat)
     (hnd : l.Nodup) (p : Nat) (x : V) :
@@ -720,7 +721,8 @@ theorem denseFold_stage_some {W} (pre : V → V) (f : V → W → V) (w : W) (l 
   have e : stageList true (l.map fun q => (q, w))
       = (l.map fun q => (q, (fun _ => (none : Option W)) q))
         ++ l.map fun q => (q, (fun _ => some w) q) := by
-    simp [stageList]
+    simp only [stageList, if_true, List.map_map]
+    rfl
   rw [e, denseFold_append, denseFold_nodup _ l _ hnd, denseFold_nodup _ l _ hnd,
     denseFold_nodup (fun x (_ : Unit) => cellEffect (some pre) f w x) l (fun _ => ()) hnd]
   by_cases hp : p ∈ l
